@@ -1,6 +1,7 @@
 package vc
 
 import (
+	"strconv"
 	"fmt"
 	"go/types"
 	"strings"
@@ -607,9 +608,34 @@ func (vc *VC) evalSpecCall(env *Env, x *SCall) Val {
 			return Val{T: vc.mapLen(env.st, v), Typ: intT}
 		}
 		return vc.specErr("len of %s", v.Typ)
+	case "before":
+		// before(N, e): e evaluated in the state in which loop N (source-order
+		// ordinal) of the function under verification was entered; local names
+		// keep their current values. Usable in the invariants of loop N and in
+		// everything executed after it.
+		if len(x.Args) != 2 {
+			return vc.specErr("before(N, e) needs a loop ordinal and an expression")
+		}
+		n, isInt := x.Args[0].(*SInt)
+		if !isInt {
+			return vc.specErr("before(N, e): N must be a literal loop ordinal")
+		}
+		ord, _ := strconv.Atoi(n.V)
+		pre := vc.loopPre[ord]
+		if pre == nil {
+			return vc.specErr("before(%d, e): loop %d has not been entered at this point", ord, ord)
+		}
+		o := env.clone()
+		if o.now == nil {
+			o.now = env.st
+		}
+		o.st = pre
+		o.lookup = env.lookup
+		o.outer = env.outer
+		return vc.evalSpec(o, x.Args[1])
 	case "now":
-		// now(e) inside old(...): e in the current state
-		if env.inOld && env.now != nil {
+		// now(e) inside old(...) / before(...): e in the current state
+		if env.now != nil {
 			n := env.clone()
 			n.st = env.now
 			n.inOld = false
@@ -890,6 +916,11 @@ func (vc *VC) specAddr(env *Env, e SExpr) (loc string, t types.Type, steps []ste
 			// anyelem(T): every slice/array element cell holding a T (type-level frame)
 			if id, ok := x.Args[0].(*SIdent); ok {
 				if t := vc.resolveType(env, id.Name); t != nil {
+					return "", t, []step{{elem: true}}, true
+				}
+			}
+			if id, ok := x.Args[0].(*SStr); ok {
+				if t := vc.resolveType(env, id.V); t != nil {
 					return "", t, []step{{elem: true}}, true
 				}
 			}
